@@ -546,6 +546,7 @@ def r04d(P, R):
     decide(R, "R04-d", "inline-no-condition", verdict, "`... { }` without type condition is checked against the enclosing type",
            "an inline fragment without type condition is not checked against the enclosing type", und, loc=g.loc())
     fns = [x for x in P.fns.values() if x.path.startswith((CK + "operation_checker", CK + "common", CK + "types"))]
+    stack_balance(P, R, [x for x in fns if x.kind in ("Fn", "AssocFn") and not x.derived])
     if getattr(R, "direction", None) == "lenient":
         # a second partial consumer sees fewer elements: an existing overlap is missed, a valid spread rejected — C04's direction
         R.holds("R04-d", "iter-reuse:none", "iterator reuse under-approximates the overlap: decided under C04")
@@ -565,6 +566,43 @@ def threshold_dev(forms):
         return "lenient" if least > 2 else ("strict" if least < 2 else "both")
     except Exception:
         return "both"
+
+
+def stack_balance(P, R, fns):
+    """A function that both pushes to and pops from a stack it does not own (reached through a `&mut` parameter or `self`) keeps
+    the stack as it found it: on every path to an exit it pops as often as it pushed.  A path that leaves with the pushed entry
+    still on the stack makes later calls see a fragment as "being expanded" that is not (a false RecursingFragmentSpread)."""
+    for f in fns:
+        owned = {p["local"] for p in f.params if p.get("k") == "Binding"}
+        places = {}
+        for x in f.walk():
+            if x.get("k") == "MethodCall" and x.get("method") in ("push", "pop", "push_back", "pop_back") and not x.get("inl"):
+                pl, ads = seq_place(x["recv"])
+                if pl is not None and pl[0] in owned and not ads:
+                    places.setdefault(pl, set()).add(x["method"].split("_")[0])
+        for pl, ms in sorted(places.items(), key=lambda kv: str(kv[0])):
+            if ms != {"push", "pop"}:
+                continue
+            key = "stack-balance:%s:%s" % (short(f.path), ".".join(str(x) for x in pl[1:]) or "param")
+            try:
+                E = KindEval(P, want=lambda ev: ev[0] == "call" and ev[1].split("::")[-1] in ("push", "pop", "push_back", "pop_back"), enter=lambda g: False)
+                paths = E.run(f)
+            except TooComplex as ex:
+                R.undecided("R04-d", key, "abstract evaluation gave up: %s" % ex, loc=f.loc())
+                continue
+            unbalanced = 0
+            for _, evs, _ in paths:
+                depth = 0
+                for e in evs:
+                    node = E.event_node(e)[0]
+                    if node.get("k") == "MethodCall" and seq_place(node["recv"])[0] == pl:
+                        depth += 1 if node["method"].startswith("push") else -1
+                if depth > 0:
+                    unbalanced += 1
+            decide(R, "R04-d", key, unbalanced == 0, dev="strict",
+                   ok_msg="every path pops what it pushed", bad_msg="%s pushes onto a stack owned by its caller and has %d path(s) to an exit that do not pop "
+                   "again (an early return between the push and the pop): the entry stays on the stack, and a later spread of the same fragment "
+                   "is reported as recursive although nothing recurses" % (f.path, unbalanced), loc=f.loc())
 
 
 def r04e(P, R):
@@ -621,6 +659,36 @@ def field_writes(P, adt, field):
     return out
 
 
+class _Owned(dict):
+    """a node together with the function it belongs to"""
+    def __init__(self, node, fn):
+        dict.__init__(self, node)
+        self.fn = fn
+        self.node = node
+
+
+def search_rejects_kind(P, seen_nodes, own_variant, other_variant):
+    """Does the predicate of the search (the closure of a `find`/`any`/`position` over definitions) evaluate to false for a candidate
+    of the other kind, when the definition searched for is of the own kind?  True | None (not decided)"""
+    ED = A + "operation::ExecutableDefinition"
+    for y in seen_nodes:
+        if y.get("k") == "MethodCall" and y.get("method") in ("find", "any", "position", "rfind", "filter") and y.fn is not None:
+            for cl in y.node["args"]:
+                if cl.get("k") != "Closure" or not cl.get("params"):
+                    continue
+                binds = [b for b in subnodes(cl["params"][0]) if b.get("k") == "Binding"]
+                if len(binds) != 1 or ED not in norm(binds[0].get("t") or ""):
+                    continue
+                try:
+                    E = KindEval(P, want=lambda ev: False, seeds=[(ED, V(own_variant))])
+                    vals = {v for v, _, _ in E.run_expr(y.fn, cl["body"], by_local={binds[0]["local"]: V(other_variant)})}
+                except TooComplex:
+                    continue
+                if vals and vals <= {B_FALSE}:
+                    return True
+    return None
+
+
 def definition_reads(P, fn, expr, adts, with_nodes=False):
     """{adt: {fields}} of the AST types `adts` that the value of `expr` (in `fn`) is computed from — through locals, through the
     bodies of the checker functions called, and *per field* through the checker's own structs: a value read from `s.f` depends on
@@ -630,6 +698,7 @@ def definition_reads(P, fn, expr, adts, with_nodes=False):
     provs = {}
     seen = set()
     visited = []
+    owners = {}
 
     def prov_of(g):
         if g.path not in provs:
@@ -648,6 +717,7 @@ def definition_reads(P, fn, expr, adts, with_nodes=False):
             k = y.get("k")
             if k is not None:
                 visited.append(y)
+                owners[id(y)] = g
             if k == "Field":
                 a = norm(y.get("adt") or "")
                 if a in adts:
@@ -673,7 +743,7 @@ def definition_reads(P, fn, expr, adts, with_nodes=False):
                     st.append(v)
     visit(expr, fn)
     if with_nodes:
-        return reads, visited
+        return reads, [_Owned(y, owners.get(id(y))) for y in visited]
     return reads
 
 
@@ -707,7 +777,18 @@ def r04f(P, R):
                 R.holds("R04-f", "earlier-definition:" + variant, "the search does not order definitions by source position")
             # the current definition's own name is read through its binding; what matters is that the search never consults the
             # *other* kind's name
+            # ... and among its own kind it compares *names* only: a search that also reads another property of the definitions
+            # (their operation type, ..) only meets the candidates that agree on it, the others escape
+            narrowed = sorted(reads.get(own, set()) - {"name", "position"})
+            decide(R, "R04-f", "all-of-kind:" + variant, not narrowed, dev="lenient",
+                   ok_msg="every earlier %s takes part in the search" % own.split("::")[-1],
+                   bad_msg="the search that decides %s also depends on %s.%s of the definitions compared: two definitions with the same name "
+                           "that differ there are not recognised as duplicates (e.g. `query X` and `mutation X`), although the name must be "
+                           "unique among all %ss of the document" % (variant, own.split("::")[-1], "/".join(narrowed), own.split("::")[-1].replace("Definition", "").lower()),
+                   loc=e0.loc())
             bad = "name" in reads.get(other, set())
+            if bad and search_rejects_kind(P, seen_nodes, own.split("::")[-1], other.split("::")[-1]):
+                bad = False       # the names are read through a kind-agnostic accessor, but candidates of the other kind are rejected first
             verdict = False if bad else (True if "name" in reads.get(own, set()) else None)
             decide(R, "R04-f", "namespace:" + variant, verdict,
                    "%s compares names of %s only" % (variant, own.split("::")[-1]),
